@@ -13,7 +13,8 @@ ASSUME = [
     'user models (a dosed PKPD model on RefSim, two error models, data arrays)',
     'oracle: the same evaluation on a freshly built object evaluated once (rtol 1e-9); inputs compared before / after',
     'user mutations after construction: re-administration, new regimen, output selection, enabling sensitivities on the '
-    "user's mechanistic model, renaming an error-model parameter, writing into the data arrays",
+    "user's mechanistic model, re-fixing the ReducedErrorModel that was handed over, renaming an error-model parameter, "
+    'writing into the data arrays; fix_parameters on one of the two objects (the sibling must not notice)',
     'process independence: fork workers (objects inherited by fork) and pints.ParallelEvaluator versus SequentialEvaluator',
     'purity of individual likelihood evaluations under all call histories is also model-checked in LogLik.tla (HistoryFree) '
     'and replayed by C01; mechanistic-model histories by C11',
@@ -38,6 +39,12 @@ def _compute(tier, seed):
     except tlc.SpecViolation as e:
         if e.res.violated not in ('ProtocolFollowsRegimen', 'RunIsConsistent'):
             raise MachineryError('as-found design refuted on %s' % e.res.violated)
+    try:
+        tlc.run('Purity', 'Purity_shallow.cfg', want_records=False)
+        raise MachineryError('negative control failed: shallow copies of the error models not refuted')
+    except tlc.SpecViolation as e:
+        if e.res.violated != 'EMIsolation':
+            raise MachineryError('shallow design refuted on %s' % e.res.violated)
     sim = tlc.simulate('Purity', 'Purity_walks.cfg', num=(40 if tier == 'quick' else 300), depth=80, seed=seed + 1)
     walks = sim.records
     from . import replay_purity, validate_traces
@@ -73,7 +80,8 @@ def run(tier, seed):
                     'construction) at the level of the hidden solver state; TLC -simulate behaviours of 5 steps are replayed on 7 '
                     'pairs of real objects; non-trivial = the behaviour contains a user mutation after construction',
                walks=out['nwalks'], trace_events=out['nevents'], parallel_evaluations=v.counters.get('parallel_evaluations', 0),
-               tlc_runs=out['runs'], spec_negative_control='Purity_asfound.cfg refuted by TLC')
+               tlc_runs=out['runs'], spec_negative_control='Purity_asfound.cfg (solver rebuilt without its protocol) and Purity_shallow.cfg (error models shallow-copied) refuted by TLC', user_refixes=v.counters.get('feat_with_user_refix', 0),
+               object_fixes=v.counters.get('objfix', 0))
     return v.finish('model_checking', cov, ASSUME)
 
 
